@@ -393,8 +393,13 @@ class Ctx:
         cov.update(self.extra)
         if exhaustive is not None:
             cov["exhaustive"] = exhaustive
+        # what the check assumes or trusts: what the check itself declared, the trusted base, and the union of the axioms that
+        # Print Assumptions reported under the property theorems of this run
+        axioms = sorted({a for l in self.assumption_axioms.values() for a in (l or [])})
+        assumed = list(self.assumptions) + ["trusted: " + t for t in self.trusted if ("trusted: " + t) not in self.assumptions]
+        assumed.append("axioms (Print Assumptions, union over the property theorems of this run): " + (", ".join(axioms) or "none"))
         ev = {"property_id": self.pid, "tier": self.tier, "seed": self.seed, "level": "proof",
-              "coverage": cov, "assumptions": self.assumptions, "wall_s": round(wall, 2),
+              "coverage": cov, "assumptions": assumed, "wall_s": round(wall, 2),
               "violations": len(violations)}
         os.makedirs(os.path.join(ROOT, "evidence"), exist_ok=True)
         json.dump(ev, open(os.path.join(ROOT, "evidence", "%s.json" % self.pid), "w"), indent=1, default=str)
